@@ -125,6 +125,11 @@ PROPS = {
         "Machine-checked proof for every message and every IPLD payload (64-bit ranges); the model's bytes equal the implementation's on every generated message, so the theorems are about the format actually written.",
         "go-ipld-prime's dagcbor / bindnode are modelled (Cbor.v, Wire.v), not verified: the tie is the byte-for-byte comparison; 'decoding arbitrary bytes never panics / never yields a missing body' is a theorem only for the model's decoder, for the real decoders it is a test (a stream of random and mutated inputs under recover) - partial; floats are opaque 64-bit patterns; strings are byte strings (no UTF-8 validation, as the code ships peer ids in text strings)",
         corr=["corr/WireCorr.v", "corr/NetCorr.v"]),
+    "C20": dict(P("props/C20.v", ["gsnode", {"name": "stress", "race": True}],
+        "lock-order part: a lock graph (mutexes, and every holder/callee/taker way one is acquired while another is held) is EXTRACTED on every run from the SSA form and VTA call graph of /repo by tools/lockgraph; Coq theorems: the extracted relation minus one committed, explained infeasible path admits a strictly increasing rank (acyclic, no lock re-acquired), and a rank excludes any cycle of threads each waiting for a lock the next holds; runtime part (tests, not proofs): every graphsync callback with every message kind returns (gsnode, exhaustive product, watchdog), race-instrumented stress of the manager API and of the real Transport under concurrent callbacks with re-entrant subscribers, Stop while active, no goroutine left blocked on a library lock",
+        "Machine-checked acyclicity of the extracted lock order and a machine-checked no-deadlock theorem for any threads that respect it; data-race freedom and completion of every call are exercised under the race detector and watchdogs, which sample the scheduler's interleavings.",
+        "level 'other': the theorem covers lock-order deadlocks among library mutexes only, under the soundness of the static extraction (calls through function values such as TransportOption closures and user subscribers are not resolved; all instances of a mutex type are merged; one path is excluded as infeasible with a written justification, see coq/model/Locks.v); data races, channel / goroutine waits and re-entrant subscriber calls are covered only by the race-instrumented stress suite and watchdogs (a test); the Go memory model and sync primitives are assumed",
+        corr=[], level="other"), lockgraph=True),
 }
 
 NOT_APPLICABLE = {}
